@@ -44,7 +44,7 @@ func newValidatorOracle(w *World) *validatorOracle {
 // ---- reference validator -----------------------------------------------------------------
 
 func refChainWellFormed(c *gpbft.ECChain) bool {
-	if c.IsZero() {
+	if isBottom(c) {
 		return true
 	}
 	if len(c.TipSets) > gpbft.ChainMaxLen {
@@ -84,7 +84,7 @@ func (vo *validatorOracle) refValid(m *gpbft.GMessage) (valid, known bool, why s
 	if !refChainWellFormed(v) {
 		return false, true, "malformed value"
 	}
-	bottom := v.IsZero()
+	bottom := isBottom(v)
 	switch m.Vote.Phase {
 	case gpbft.QUALITY_PHASE:
 		if m.Vote.Round != 0 || bottom {
@@ -121,7 +121,7 @@ func (vo *validatorOracle) refValid(m *gpbft.GMessage) (valid, known bool, why s
 	if j == nil {
 		return false, true, "missing justification"
 	}
-	if j.Vote.Instance != m.Vote.Instance || !j.Vote.SupplementalData.Eq(&m.Vote.SupplementalData) {
+	if j.Vote.Instance != m.Vote.Instance || !suppEq(&j.Vote.SupplementalData, &m.Vote.SupplementalData) {
 		return false, true, "justification instance/supplement"
 	}
 	if !refChainWellFormed(j.Vote.Value) {
@@ -133,7 +133,7 @@ func (vo *validatorOracle) refValid(m *gpbft.GMessage) (valid, known bool, why s
 	case gpbft.CONVERGE_PHASE, gpbft.PREPARE_PHASE:
 		switch j.Vote.Phase {
 		case gpbft.COMMIT_PHASE:
-			ok = j.Vote.Round == m.Vote.Round-1 && j.Vote.Value.IsZero()
+			ok = j.Vote.Round == m.Vote.Round-1 && isBottom(j.Vote.Value)
 		case gpbft.PREPARE_PHASE:
 			ok = j.Vote.Round == m.Vote.Round-1 && tipsetsEqual(j.Vote.Value, v)
 		}
@@ -299,7 +299,7 @@ func (vo *validatorOracle) forge(m *gpbft.GMessage) (*gpbft.GMessage, string) {
 	switch c.Intn(19) {
 	case 18:
 		// the observed justification is borrowed for a different step of the same value
-		if x.Justification == nil || x.Vote.Value.IsZero() {
+		if x.Justification == nil || isBottom(x.Vote.Value) {
 			return nil, ""
 		}
 		x.Vote.Phase = []gpbft.Phase{gpbft.DECIDE_PHASE, gpbft.COMMIT_PHASE, gpbft.CONVERGE_PHASE, gpbft.PREPARE_PHASE}[c.Intn(4)]
@@ -558,7 +558,7 @@ func (vo *validatorOracle) twoStage(to *Member, m *gpbft.GMessage) {
 		return nil
 	}
 	// the original arrives first, as it does in real traffic (warms the shared caches)
-	if base != m && !orig.IsZero() {
+	if base != m && !isBottom(orig) {
 		if p := vo.strip(m); p != nil {
 			if pv, err := to.part.PartiallyValidateMessage(w.ctx, p); err == nil {
 				vo.complete(p, orig)
